@@ -401,6 +401,17 @@ pub fn k9(dir: &str, thorough: bool, seed: u64) {
             let a0 = names[0].clone();
             formulas.push(format!("(!{{x}}: AX {{x}}) & (!{{x}}: 3{{y}}: (@{{y}}: (~{{x}} & EF ({{x}} | {a0}))))"));
         }
+        // planted: the same formula on two consecutive lines, and two consecutive lines that preprocess to the same tree
+        // (renamed variable, long spelling): every line must still get its own entry `formula-i`
+        if i % 2 == 0 {
+            let last = formulas[formulas.len() - 1].clone();
+            formulas.push(last);
+        }
+        if i % 4 == 1 {
+            formulas.push(s("!{x}: AX {x}"));
+            formulas.push(s("\\bind {y}:  (AX {y})"));
+            formulas.push(format!("EF {}", names[0]));
+        }
         // file layout with comments / blanks / surrounding whitespace
         let mut ftext = String::from("# generated\n\n");
         for f in &formulas {
